@@ -4,6 +4,7 @@
 # Not part of the per-change checks (a minute or more per module group); run once after the last proof change.
 cd "$(dirname "$0")/../coq" || exit 1
 mods=$(ls theories/Props/Properties_C*.v | sed 's#theories/Props/\(.*\)\.v#Ivv.Props.\1#')
+mods="$mods Ivv.MT.WorkForeignPut"
 out=../docs/COQCHK.txt
 { echo "coqchk -o -silent -Q theories Ivv <all Props modules>   ($(coqchk --version 2>/dev/null | head -1))"; echo "modules: $mods"; } > $out
 timeout 7200 coqchk -o -silent -Q theories Ivv $mods >> $out 2>&1
